@@ -85,6 +85,49 @@ class LogActionContext(ActionContext):
             as well as interpolate the values.
             """
 
+            def parse(self, format_string):
+                # everything between a '{' and its '}' is the expression: a ':' or '!' inside it belongs to the
+                # expression (a slice, a dict key, a string argument, '!='), it does not start a format spec or
+                # conversion - those would be applied to the text of the result, and fail the whole message
+                literal = []
+                i, n = 0, len(format_string)
+                while i < n:
+                    c = format_string[i]
+                    if c == '{' and format_string[i + 1:i + 2] == '{':
+                        literal.append('{')
+                        i += 2
+                    elif c == '}' and format_string[i + 1:i + 2] == '}':
+                        literal.append('}')
+                        i += 2
+                    elif c == '{':
+                        depth, j, quote = 1, i + 1, None
+                        while j < n and depth:
+                            d = format_string[j]
+                            if quote:
+                                if d == '\\':
+                                    j += 1
+                                elif d == quote:
+                                    quote = None
+                            elif d in '\'"':
+                                quote = d
+                            elif d == '{':
+                                depth += 1
+                            elif d == '}':
+                                depth -= 1
+                            j += 1
+                        if depth:
+                            raise ValueError("expected '}' before end of string")
+                        yield ''.join(literal), format_string[i + 1:j - 1], '', None
+                        literal = []
+                        i = j
+                    elif c == '}':
+                        raise ValueError("Single '}' encountered in format string")
+                    else:
+                        literal.append(c)
+                        i += 1
+                if literal:
+                    yield ''.join(literal), None, None, None
+
             def get_field(self, field_name, args, kwargs):
                 # evaluate watch
                 watch, var_lookup, log_str = ctx_self.eval_watch(field_name, WATCH_SOURCE_LOG)
